@@ -52,8 +52,9 @@ theorem c13_register_active (ops : List Op) (hq : quiescent (run ops) = true) :
   have r := rel_run ops
   simp only [quiescent, Bool.and_eq_true, List.isEmpty_iff] at hq
   have hi : (run ops).h.installed = (run ops).svc.polled ++ (run ops).svc.custom := by
-    rcases r.settled.2 with h | h | h | h
-    · exact absurd hq.1 h
+    rcases r.settled.2 with h | h | ⟨l, v, h, _⟩ | ⟨l, h⟩ | h
+    · exact absurd hq.1.1 h
+    · exact absurd hq.1.2 h
     · rw [hq.2] at h; simp at h
     · rw [hq.2] at h; simp at h
     · exact h.2
@@ -148,9 +149,14 @@ theorem c13_service_disjoint (locked : Bool) (s : St) (op : Op)
       | none => exact ⟨rfl, rfl⟩
       | some cfg => exact ⟨rfl, rfl⟩
   | pollFail e => exact ⟨rfl, rfl⟩
-  | taskRead i =>
+  | taskStart i =>
     simp only [step]
     cases s.svc.queued[i]? with
+    | none => exact ⟨rfl, rfl⟩
+    | some t => exact ⟨rfl, rfl⟩
+  | taskRead k =>
+    simp only [step]
+    cases s.pre[k]? with
     | none => exact ⟨rfl, rfl⟩
     | some t =>
       dsimp only
@@ -181,12 +187,12 @@ theorem c13_service_disjoint (locked : Bool) (s : St) (op : Op)
 theorem c13_service_untouched (locked : Bool) (s : St) (op : Op)
     (hop : (∃ t, op = .register t) ∨ op = .registerBad ∨ (∃ h, op = .unregister h)) :
     (step locked s op).svc.hash = s.svc.hash ∧ (step locked s op).svc.polled = s.svc.polled ∧
-    (step locked s op).h = s.h ∧ (step locked s op).holding = s.holding ∧
+    (step locked s op).h = s.h ∧ (step locked s op).holding = s.holding ∧ (step locked s op).pre = s.pre ∧
     (step locked s op).timerAlive = s.timerAlive := by
   rcases hop with ⟨t, rfl⟩ | rfl | ⟨h, rfl⟩
-  · exact ⟨rfl, rfl, rfl, rfl, rfl⟩
-  · exact ⟨rfl, rfl, rfl, rfl, rfl⟩
-  · refine ⟨?_, ?_, rfl, rfl, rfl⟩
+  · exact ⟨rfl, rfl, rfl, rfl, rfl, rfl⟩
+  · exact ⟨rfl, rfl, rfl, rfl, rfl, rfl⟩
+  · refine ⟨?_, ?_, rfl, rfl, rfl, rfl⟩
     · show (removeCustom s.svc h).hash = _
       cases hf : s.svc.customIds.findIdx? (fun x => x == h) with
       | none => rw [removeCustom_none _ _ hf]
